@@ -34,7 +34,7 @@ def one_fit(rng, fam, kind, ns, nu, rho, max_iter, trunc, solver_iters=None, uni
     if sr > rho * (1 + TOL) + TOL:
         info = dict(what='spectral radius of the returned state-transition block exceeds the requested bound',
                     spectral_radius=sr, bound=rho)
-    k = lmi.log_monotone(reg.objective_log_)
+    k = lmi.log_defect(reg, X, nu)
     if info is None and k is not None:
         info = dict(what='logged objective increases between iterations', log=list(map(float, reg.objective_log_)), at=k)
     if info is None and fam == 'edmd' and np.any(A):
@@ -159,7 +159,7 @@ def run(res, tier):
               'problem A, after problem B, and on tolerance), alpha, inv_method, truncated unshifted SVD for DMDc. Per fit: '
               'max |eig(A)| <= rho (1e-5), objective log non-increasing, and the certificate of the theorem '
               '(lambda_min of [[rho P, A^T P],[P A, rho P]] at the returned (U, P_)).'),
-        samples=samples, input_distribution=dist)
+        samples=samples, input_distribution=dist, log_increases_explained_by_the_strictness_margin=lmi.MARGIN_HITS[0])
     res.assumptions += ['CVXOPT/PICOS return a point feasible to tolerance when they claim "optimal" (oracle contract, checked per fit)',
                         'theorem: certificate => |lambda| <= rho (AlgR/Lyapunov.v, standard-library real-number axioms)']
 
